@@ -1100,7 +1100,43 @@ pub fn object_define_property(
         .get_property(&configurable_key)
         .map(|v| v.to_boolean())
         .unwrap_or_else(|| existing.as_ref().is_some_and(|prop| prop.configurable()));
+    let has_value = desc_borrowed.get_property(&value_key).is_some();
+    let has_writable = desc_borrowed.get_property(&writable_key).is_some();
+    let has_enumerable = desc_borrowed.get_property(&enumerable_key).is_some();
     drop(desc_borrowed);
+
+    // A descriptor is either a data or an accessor descriptor
+    if is_accessor && (has_value || has_writable) {
+        return Err(JsError::type_error(
+            "Invalid property descriptor. Cannot both specify accessors and a value or writable attribute",
+        ));
+    }
+    // A property that is not configurable keeps its attributes and its kind; its value can
+    // change only while it is writable
+    if let Some(current) = existing.as_ref().filter(|prop| !prop.configurable()) {
+        let same_accessors = || {
+            let same = |a: Option<&crate::gc::Gc<crate::value::JsObject>>, b: &Option<JsValue>| match (a, b) {
+                (_, None) => true,
+                (Some(x), Some(JsValue::Object(y))) => x.id() == y.id(),
+                (None, Some(JsValue::Undefined)) => true,
+                _ => false,
+            };
+            same(current.getter(), &getter) && same(current.setter(), &setter)
+        };
+        let refused = configurable
+            || (has_enumerable && enumerable != current.enumerable())
+            || ((is_accessor || has_value || has_writable) && is_accessor != current.is_accessor())
+            || (current.is_accessor() && !same_accessors())
+            || (!current.is_accessor()
+                && !current.writable()
+                && (writable || (has_value && !same_value(&value, &current.value))));
+        if refused {
+            return Err(JsError::type_error(format!(
+                "Cannot redefine property: {}",
+                key
+            )));
+        }
+    }
 
     if is_accessor {
         // Accessor descriptor
